@@ -67,7 +67,7 @@ class PrefetchIterator:
         item = self._buffer.pop(0)
         self._cond.notify_all()
         return item
-      if self._error:
+      if self._error is not None:
         raise self._error  # pylint: disable=raising-bad-type
       assert not self._active
       raise StopIteration()
@@ -92,7 +92,9 @@ class PrefetchIterator:
           self._cond.wait_for(_predicate)
           if not self._active:
             return
-      except Exception as e:  # pylint: disable=broad-except
+      # BaseException: anything that ends this thread must reach the consumer,
+      # which would otherwise wait forever.
+      except BaseException as e:  # pylint: disable=broad-except
         with self._cond:
           self._error = e
           self._active = False
